@@ -5,6 +5,7 @@
 
 #include <string.h>
 #include <float.h>
+#include <math.h>
 
 #include <sys/uio.h>
 
@@ -78,9 +79,13 @@ extern int mpt_data_convert_float64(const double *from, MPT_TYPE(type) type, voi
 		val = *from;
 	}
 	switch (type) {
-		case 'f':
-			if (dest) *((float *) dest) = val;
+		case 'f': {
+			float tmp = val;
+			/* finite value beyond target range */
+			if (isinf(tmp) && !isinf(val)) return MPT_ERROR(BadValue);
+			if (dest) *((float *) dest) = tmp;
 			return sizeof(float);
+		}
 		case 'd':
 			if (dest) *((double *) dest) = val;
 			return sizeof(double);
@@ -123,12 +128,20 @@ extern int mpt_data_convert_exflt(const long double *from, MPT_TYPE(type) type, 
 		val = *from;
 	}
 	switch (type) {
-		case 'f':
-			if (dest) *((float *) dest) = val;
+		case 'f': {
+			float tmp = val;
+			/* finite value beyond target range */
+			if (isinf(tmp) && !isinf(val)) return MPT_ERROR(BadValue);
+			if (dest) *((float *) dest) = tmp;
 			return sizeof(float);
-		case 'd':
-			if (dest) *((double *) dest) = val;
+		}
+		case 'd': {
+			double tmp = val;
+			/* finite value beyond target range */
+			if (isinf(tmp) && !isinf(val)) return MPT_ERROR(BadValue);
+			if (dest) *((double *) dest) = tmp;
 			return sizeof(double);
+		}
 		case 'e':
 			if (dest) *((long double *) dest) = val;
 			return sizeof(long double);
